@@ -638,6 +638,10 @@ func (g *G) envFiles(info *svcInfo) any {
 	l := L{}
 	for i := 0; i < n; i++ {
 		body := fmt.Sprintf("EF_%s_%d=%s\nSHARED=from-file-%d\n# comment\nQUOTED=\"quoted value\"\n", strings.ToUpper(info.name), i, g.word(), i)
+		if g.chance(0.5) {
+			// a bare key that the declared environment never defines (inherited from nothing)
+			body += "PROCESS_ONLY_VAR\n"
+		}
 		path := g.file("env", info.name, ".env", body)
 		if !g.long() {
 			l = append(l, path)
